@@ -728,10 +728,72 @@ func (ecd Encoder) decodePublic(pt *rlwe.Plaintext, values FloatSlice, logprec f
 		}
 
 	} else {
-		return ecd.plaintextToFloat(pt.Level(), pt.Scale, logSlots, ecd.buff, values)
+
+		if err = ecd.plaintextToFloat(pt.Level(), pt.Scale, logSlots, ecd.buff, values); err != nil {
+			return
+		}
+
+		// Rounds to the requested precision, as for the batched encoding.
+		if logprec != 0 {
+			roundFloatSlice(values, logprec, ecd.Prec())
+		}
 	}
 
 	return
+}
+
+// roundFloatSlice rounds, in place, the real and imaginary part of each element of values to a multiple of 2^{-logprec}.
+func roundFloatSlice(values FloatSlice, logprec float64, prec uint) {
+
+	scale := math.Exp2(logprec)
+
+	roundBigFloat := func(x *big.Float, scaleBig, half *big.Float, tmp *big.Int) {
+
+		if x == nil {
+			return
+		}
+
+		x.Mul(x, scaleBig)
+
+		// Round = floor +/- 0.5
+		if x.Sign() >= 0 {
+			x.Add(x, half)
+		} else {
+			x.Sub(x, half)
+		}
+
+		x.Int(tmp)
+		x.SetInt(tmp)
+		x.Quo(x, scaleBig)
+	}
+
+	switch values := values.(type) {
+	case []float64:
+		for i := range values {
+			values[i] = math.Round(values[i]*scale) / scale
+		}
+	case []complex128:
+		for i := range values {
+			values[i] = complex(math.Round(real(values[i])*scale)/scale, math.Round(imag(values[i])*scale)/scale)
+		}
+	case []*big.Float:
+		scaleBig := new(big.Float).SetPrec(prec).SetFloat64(scale)
+		half := new(big.Float).SetFloat64(0.5)
+		tmp := new(big.Int)
+		for i := range values {
+			roundBigFloat(values[i], scaleBig, half, tmp)
+		}
+	case []*bignum.Complex:
+		scaleBig := new(big.Float).SetPrec(prec).SetFloat64(scale)
+		half := new(big.Float).SetFloat64(0.5)
+		tmp := new(big.Int)
+		for i := range values {
+			if values[i] != nil {
+				roundBigFloat(values[i][0], scaleBig, half, tmp)
+				roundBigFloat(values[i][1], scaleBig, half, tmp)
+			}
+		}
+	}
 }
 
 // IFFT evaluates the special 2^{LogN}-th encoding discrete Fourier transform on [FloatSlice].
